@@ -8,3 +8,4 @@ open UtilModel UtilModel.Routine
 #print axioms UtilModel.Routine.one_running_partial
 #print axioms UtilModel.Routine.chain_inv_partial
 #print axioms UtilModel.Routine.waitReturn_after_all
+#print axioms UtilModel.Routine.C04a_obs_partial
